@@ -20,6 +20,7 @@ func init() {
 	reg("C20", "C20.R2", "E2", "checkInputBytes: refusal, cut and pass-through branches", 4, ruleCheckInputBytes)
 	reg("C20", "C20.R4", "E7", "ban value and maintenance cap are unbanIterations x the source's own threshold (the one its counter decays by)", 2, ruleBanCapAgreement)
 	reg("C20", "C20.R3", "E2", "antispam gating in In and the constant verdicts inside IsSpam", 1, ruleAntispamGating)
+	reg("C20", "C20.R5", "E7", "antispam exceptions use match rules: a value is rejected by length only when shorter than the shortest configured value (same rule as C17.R5)", 2, ruleMatchRuleLengthGate)
 }
 
 // reasonOf classifies a guard literal of In/streamEvent into a refusal reason.
